@@ -26,7 +26,7 @@ def _keys(tier):
     L = 3 if tier == "quick" else 4
     syms = SYMS if tier != "quick" else SYMS
     seen = set()
-    for k in itertools.chain(A.key_strings(syms, L if tier != "quick" else 2), A.word_forms(A.KEY_WORDS, syms)):
+    for k in itertools.chain(A.key_strings(syms, L if tier != "quick" else 2), A.word_forms(A.KEY_WORDS, syms), A.KEYWORD_CASES):
         if k not in seen:
             seen.add(k)
             yield k
